@@ -37,6 +37,10 @@ def hand_corpus():
               [("ad", [("p1", A("f"))], []), ("rule", A("c"), [P(A("f"))]),
                ("rule", A("a"), [P(A("c")), N(A("b"))]), ("rule", A("b"), [P(A("c")), N(A("a"))]),
                ("query", A("c")), ("query", A("a")), ("query", A("b"))]))
+    C.append(("loop-entered-under-open-positive-recursion",
+              [("ad", [("p1", A("x"))], []), ("ad", [("p2", A("f"))], []),
+               ("rule", A("r"), [P(A("r")), P(A("x"))]), ("rule", A("r"), [P(A("p"))]),
+               ("rule", A("p"), [P(A("f"))]), ("rule", A("p"), [N(A("p"))]), ("query", A("r"))]))
     return C
 
 
@@ -146,6 +150,8 @@ def main(tier, seed):
     n = 150 if tier == "quick" else 3000
     for i in range(n):
         items.append(("neg/%d/%d" % (seed, i), gen.negcycle_program(random.Random("neg/%s/%s" % (seed, i)))))
+    for i in range(n):
+        items.append(("negrec/%d/%d" % (seed, i), gen.negcycle_under_recursion(random.Random("negrec/%s/%s" % (seed, i)))))
     counts = {"must-answer": 0, "must-reject": 0, "either": 0}
     for st in pmap(work, items, item_timeout=60 if tier == "quick" else 300):
         for k in counts:
